@@ -20,6 +20,7 @@ from .core import Stats, Run, pmap_stats, seeded_order, jsonable
 import smoothmath as sm
 
 EXTRA = "extra_coord"
+ITEM_TIME_LIMIT = 300       # seconds of wall clock for all executions on one term (normal: milliseconds)
 
 
 # ---------------------------------------------------------------- term sources
@@ -313,9 +314,14 @@ CHECKS = {}
 def _worker_factory(fn):
     def work(chunk):
         st = Stats()
+        from .core import time_limit, OperationTimeout
         for fam, t in chunk:
             try:
-                fn(fam, t, st)
+                with time_limit(ITEM_TIME_LIMIT):
+                    fn(fam, t, st)
+            except (OperationTimeout, MemoryError) as ex:
+                st.violation(case(t, {}, "tree", "oracle", "termination", None,
+                                  f"exercising this term did not finish ({type(ex).__name__}: {ex})"))
             except Exception as ex:  # noqa: BLE001
                 from .core import raised_in_library
                 if raised_in_library(ex):
